@@ -3,13 +3,43 @@ import itertools
 from ..runner import Spec, Case
 from .. import core
 
-MUTATORS = ('assign', 'assigns', 'concat', 'concats', 'append', 'resize', 'clear', 'rem', 'rems', 'fmt', 'fmtl', 'print')
+MUTATORS = ('assign', 'assigns', 'concat', 'concats', 'append', 'resize', 'clear', 'rem', 'rems', 'fmt', 'fmtl', 'print', 'pf', 'show', 'remi', 'fmtrej', 'pfrej')
 ESC = {7: b'\\a', 8: b'\\b', 12: b'\\f', 10: b'\\n', 13: b'\\r', 9: b'\\t', 11: b'\\v', 92: b'\\\\', 39: b"\\'", 34: b'\\"', 63: b'\\?'}
 
 def hx(b): return b.hex() if b else '-'
 
 def shown(b):
     return b'"' + b''.join(ESC.get(c, bytes([c])) for c in b) + b'"'
+
+# ---- formatted writes through print_to_with / show_to (ops `pf`, `show`): formats, arguments, and (only to keep track of the
+# text so that later operands and positions can be chosen relative to it) what they print
+INT_EDGES = (0, 1, -1, 9, 10, -10, 255, 256, -128, 2**31 - 1, -2**31, 2**31, 2**32 - 1, 2**32, -2**32, 2**63 - 1, -2**63, 10**18)
+
+def pad(left, zero, width, sign, digits):
+    fill = b'' if width is None else (b'0' if (zero and not left) else b' ') * max(0, width - len(sign) - len(digits))
+    if left: return sign + digits + fill
+    if zero: return sign + fill + digits
+    return fill + sign + digits
+
+def render_spec(flags, width, prec, lng, conv, v):
+    left, zero, plus = '-' in flags, '0' in flags, '+' in flags
+    if conv == 's': return pad(left, False, width, b'', v if prec is None else v[:prec])
+    if conv == 'c': return pad(left, False, width, b'', bytes([v % 256]))
+    if conv in 'di':
+        m = v if lng else ((v + 2**31) % 2**32) - 2**31
+        return pad(left, zero, width, b'-' if m < 0 else (b'+' if plus else b''), str(abs(m)).encode())
+    m = v % (2**64 if lng else 2**32)
+    return pad(left, zero, width, b'', format(m, {'u': 'd', 'x': 'x', 'X': 'X', 'o': 'o'}[conv]).encode())
+
+def show_val(v):
+    if isinstance(v, int): return str(v).encode()
+    if isinstance(v, bytes): return shown(v)
+    return b'tuple(' + b', '.join(show_val(x) for x in v) + b')'
+
+def arg_tokens(v):
+    if isinstance(v, int): return [f'i{v}']
+    if isinstance(v, bytes): return ['s' + hx(v)]
+    return [f't{len(v)}'] + [t for x in v for t in arg_tokens(x)]
 
 class Gen:
     """history generator that tracks the abstract text of every object (only to CHOOSE operands: empty, equal,
@@ -43,6 +73,46 @@ class Gen:
         if r < 0.82: return t + self.rtext(rng.randrange(1, 4))                      # longer than the target
         if n and r < 0.88: return self.rtext(1) + t[:rng.randrange(n)]
         return self.rtext(self.rlen(64))
+    def rint(self):
+        rng = self.rng; r = rng.random()
+        if r < 0.3: return rng.randrange(-9, 100)
+        if r < 0.55: return rng.choice(INT_EDGES)
+        return rng.choice([1, -1]) * rng.getrandbits(rng.choice([8, 16, 31, 32, 33, 62]))
+    def rval(self, depth=1):
+        rng = self.rng; r = rng.random()
+        if r < 0.4: return self.rint()
+        if r < 0.75 or depth >= 3: return self.rtext(rng.randrange(0, 7))
+        return tuple(self.rval(depth + 1) for _ in range(rng.choice([0, 1, 2, 2, 3])))
+    def rformat(self, t):
+        """a format, its arguments and what it prints: literal runs, `%%`, specifications, `%$`, in sequence"""
+        rng = self.rng; fmt = b''; out = b''; args = []
+        if rng.random() < 0.02: return fmt, args, out
+        for _ in range(rng.choice([1, 1, 2, 2, 3, 3, 4, 5, 6])):
+            kind = rng.choice('LLPPSSSS$')
+            if kind in 'S$' and len(args) == 8: kind = 'P'
+            if kind == 'L':
+                al = bytes(c for c in self.al if c != 37) or b'.'
+                if rng.random() < 0.2: al += b' \t\n'
+                x = bytes(rng.choice(al) for _ in range(rng.choice([1, 1, 2, 3, 6, 40]))); fmt += x; out += x
+            elif kind == 'P':
+                k = rng.choice([1, 1, 1, 2]); fmt += b'%%' * k; out += b'%' * k
+            elif kind == '$':
+                v = self.rval(); fmt += b'%$'; out += show_val(v); args.append(v)
+            else:
+                conv = rng.choice('ssssdddiiuxXocc')
+                flags = ''.join(f for f in {'s': '-', 'c': '-', 'd': '-0+', 'i': '-0+'}.get(conv, '-0') if rng.random() < 0.25)
+                width = rng.choice([None, None, None, 1, 2, 3, 5, 8, 12, rng.randrange(1, 100)])
+                prec = rng.choice([None, None, 0, 1, 2, 5, 10]) if conv == 's' else None
+                lng = conv not in 'sc' and rng.random() < 0.5
+                if conv == 's':
+                    v = self.operand(t)[:40] if rng.random() < 0.3 else self.rtext(rng.randrange(0, 9))
+                elif conv == 'c':
+                    v = rng.choice([c for c in self.al if c != 0]) + 256 * rng.choice([0, 0, 0, 1, -1])
+                else: v = self.rint()
+                fmt += ('%' + flags + ('' if width is None else str(width)) + ('' if prec is None else f'.{prec}') + ('l' if lng else '') + conv).encode()
+                out += render_spec(flags, width, prec, lng, conv, v); args.append(v)
+        if rng.random() < 0.08 and len(args) < 8: args.append(self.rval())           # an argument no specification uses
+        return fmt, args, out
     def emit(self, l): self.lines.append(l)
     def live(self): return sorted(self.txt)
     def step(self):
@@ -107,12 +177,39 @@ class Gen:
             if pos + len(out) <= self.maxlen + 64 and frags:
                 self.emit(f"print {k} {pos} {' '.join(frags)}")
                 self.txt[k] = t[:pos] + out
-        elif r < 0.80: self.emit(f'len {k}')
-        elif r < 0.82: self.emit(f'cstr {k}')
-        elif r < 0.87: self.emit(f'cmp {k} {hx(self.operand(t))}')
-        elif r < 0.90: self.emit(f'eq {k} {hx(self.operand(t))}')
-        elif r < 0.96: self.emit(f'mem {k} {hx(self.operand(t))}')
-        elif r < 0.98 and others: self.emit(f'cmps {k} {rng.choice(others)}')
+        elif r < 0.845:
+            # formatted write through print_to_with: literal text, `%%`, `%s`, integers, `%c`, `%$`, several in sequence,
+            # at pos = 0, inside, at len (and rarely behind the terminator: outside the property, inside the model)
+            pos = rng.choice([0, n, n, n, rng.randrange(n + 1), rng.randrange(n + 1)])
+            if rng.random() < 0.04: pos = n + rng.randrange(1, 20)
+            fmt, args, out = self.rformat(t)
+            if pos + len(out) <= self.maxlen + 64:
+                self.emit(' '.join([f'pf {k} {pos} {hx(fmt)}'] + [tk for a in args for tk in arg_tokens(a)]))
+                if pos <= n and fmt: self.txt[k] = t[:pos] + out
+        elif r < 0.865:
+            pos = rng.choice([0, n, n, rng.randrange(n + 1)])
+            v = self.rval(); out = show_val(v)
+            if pos + len(out) <= self.maxlen + 64:
+                self.emit(' '.join([f'show {k} {pos}'] + arg_tokens(v)))
+                self.txt[k] = t[:pos] + out
+        elif r < 0.875: self.emit(f'scanw {k} {rng.choice([0, n, rng.randrange(n + 1), rng.randrange(n + 1)])}')
+        elif r < 0.88:
+            # the two repaired corners: an operand without a C string (ClassError, nothing changed), a format libc rejects
+            # (negative return, String untouched; inside print_to_with: FormatError after the text before it)
+            w = rng.choice(['remi', 'fmtrej', 'pfrej'])
+            pos = rng.choice([0, n, rng.randrange(n + 1)])
+            if w == 'remi': self.emit(f'remi {k} {self.rint()}')
+            elif w == 'fmtrej': self.emit(f'fmtrej {k} {pos}')
+            else:
+                x = bytes(c for c in self.rtext(rng.randrange(0, 5)) if c != 37)
+                self.emit(f'pfrej {k} {pos} {hx(x)}')
+                if x: self.txt[k] = t[:pos] + x
+        elif r < 0.895: self.emit(f'len {k}')
+        elif r < 0.905: self.emit(f'cstr {k}')
+        elif r < 0.93: self.emit(f'cmp {k} {hx(self.operand(t))}')
+        elif r < 0.945: self.emit(f'eq {k} {hx(self.operand(t))}')
+        elif r < 0.975: self.emit(f'mem {k} {hx(self.operand(t))}')
+        elif r < 0.985 and others: self.emit(f'cmps {k} {rng.choice(others)}')
         else: self.emit(f'hash {k}')
     def run(self, nops):
         while len(self.lines) < nops: self.step()
@@ -128,7 +225,10 @@ class C16(Spec):
     harness_timeout = 300
     technique = ('Lean 4 proof: a buffer-level model of src/String.c (the allocation itself, every libc call with explicit offsets, an access log) '
                  'refines the abstract byte string for every history; allocation sizes and the memmove count regenerated from the source each run; '
-                 'white-box differential check (whole allocation, exact size from ASan) against the real library and a libc reference')
+                 'formatted writes that reach a String through print_to / print_to_with / show_to are a machine over the format_to calls whose '
+                 'position arithmetic is regenerated from src/Show.c each run; '
+                 'white-box differential check (whole allocation, exact size from ASan) against the real library and a libc reference '
+                 '(snprintf of the same format at the same offset of a reference buffer)')
     level_text = ('Theorems C16_refines_bytes / C16_terminated / C16_rem_first_occurrence / C16_rem_absent: for every creation and every history of '
                   'assign, concat, append, resize, clear, rem and formatted writes with NUL-free operands, and every value of the indeterminate bytes realloc '
                   'hands out, the model of src/String.c holds exactly the abstract string computed with list functions, is NUL-terminated at len < cap after '
@@ -136,24 +236,42 @@ class C16(Spec):
                   'functions (rem = first occurrence incl. overlapping ones; ValueError and not a byte changed when absent). The size expressions passed to '
                   'realloc/calloc and the byte count of String_Rem are re-extracted from src/String.c on every run (C16_current_source, '
                   'C16_source_shape_as_modelled); the model is tied to the library by comparing the WHOLE allocation (bytes behind the terminator included, '
-                  'exact size) after every op on thousands of generated histories.')
+                  'exact size) after every op on thousands of generated histories. Formatted writes through print_to / print_to_with / show_to '
+                  '(C16_print_positions, C16_print_format, C16_print_is_format_history, C16_print_current_source): for every well-formed format and '
+                  'argument list (any libc rendering and any Show instance that print C strings), at any pos <= len, the String becomes take pos old ++ '
+                  'rendered output, is NUL-terminated at its new len inside the allocation, and the returned position is pos + length written = the new len; '
+                  'the position update after every format_to call of print_to_with and after show_to is re-extracted from src/Show.c on every run '
+                  '(C16_current_source_positions: each must advance by exactly what format_to returned; `pos += 2` for `%%` is refuted in '
+                  'C16_percent_position_refuted), as are the bodies of String_Show, Int_Show, Tuple_Show, show_to, format_to and what String_Format_To returns. '
+                  'After e60e6ec / a626877: rem of an operand without a C string raises ClassError and changes nothing (C16_rem_argument), a format libc rejects '
+                  'returns a negative value and leaves the String untouched, inside print_to_with FormatError leaves after the steps before it '
+                  '(C16_rejected_format); the old behaviours are refuted on explicit old variants of the model functions. '
+                  'Reading at a position (scan_from -> String_Format_From) sees exactly the abstract string from pos on (C16_read_at_position).')
     level_note = ('Trusted: Lean kernel; axioms propext/Quot.sound/Classical.choice at most; translate/g_str.py; the harness/driver comparison (testing); '
                   'libc str*/mem*/realloc/vsnprintf are modelled by their ISO C specification, not verified; MurmurHash is an opaque function of the bytes '
                   '(C10); size_t is modelled as Nat (no allocation near SIZE_MAX). Aliased operands (op(s, s)) and pos > len / pos < 0 are outside the statement.')
     rule = ('op files over up to 4 heap Strings: (a) exhaustive: every target over {a,b} up to length 4 (quick) / 5 (thorough) x every operand up to '
             'length 3 / 4 for rem, mem, cmp, eq; (b) random histories over the alphabets {a,b}, {a,b,c}, printable, all 255 byte values, operands chosen '
             'relative to the current text: empty, equal, at the start, middle, end, repeated/overlapping, near miss, longer than the target, absent; '
-            '(c) the same with texts up to 4096 bytes; (d) boundary files in corpus/. After every op the whole allocation (size, all bytes) is compared '
+            '(c) the same with texts up to 4096 bytes; (d) boundary files in corpus/; (e) every format of up to 3 (quick) / 4 (thorough) pieces out of '
+            '{literal, %%, %s, %d, %li, %c, %$ of a Tuple} at pos 0 / inside / at len, and in (b),(c) random print_to_with formats (literal runs, %%, '
+            '%s %c %d %i %u %x %X %o with flags, width, precision, l, %$ of Int / String / nested Tuples, several in sequence, unused extra arguments, '
+            'the empty format), show_to, and scan_from of a word at a position. After every op the whole allocation (size, all bytes) is compared '
             'with the Lean model and the text with a libc reference. non-trivial item = a mutating op on a live String; distinct = distinct '
             '(op text, resulting dump) pairs.')
-    trusted_base = ('translate/g_str.py (regex/token extractor over src/String.c)',
+    trusted_base = ('translate/g_str.py (regex/token extractor over src/String.c, and over print_to_with / the Show instances in src/Show.c, Num.c, Tuple.c)',
+                    'the scanner of print_to_with (which format_to calls a format produces) is C14\'s subject; here it is the functional parser Cello.Str.parseFmt, '
+                    'tied to the code by the correspondence and by the extracted strchr set',
                     'harness/h_str.c + lean/Driver/Str.lean (correspondence is testing); the harness routes the library\'s realloc through a wrapper that fills added bytes with 0xA5',
                     'libc (strlen strcpy strcat strstr strcmp memmove memset realloc calloc vsnprintf vsprintf) modelled by its specification',
                     'AddressSanitizer reports the exact requested size of an allocation and every out-of-bounds access')
     assumptions = ('operands are C strings passed by value (no NUL, not the target itself): aliased calls op(s, s) are outside the property (probed and reported only)',
                    'formatted writes at 0 <= pos <= len; pos > len is modelled (text unchanged) but outside the property; negative pos is undefined behaviour and never generated',
                    'lengths up to 4096 in the correspondence (theorems have no bound); no allocation failure; size_t arithmetic does not wrap',
-                   'the portable branch of String_Format_To (not CELLO_WINDOWS / CELLO_MAC)')
+                   'the portable branch of String_Format_To (not CELLO_WINDOWS / CELLO_MAC); "libc rejects the format" is exercised with %lc of U+10FFFF in the C locale',
+                   'print_to_with on a String: formats of the grammar literal | %% | %[-0+]*[width][.prec][l]conv with conv in s c d i u x X o $ and one argument of the '
+                   'right class per specification (Int, String, Tuple of these); %c never prints NUL; floats, %p and Array/List arguments (their text contains an '
+                   'address) are left to C14; too few arguments (FormatError after a partial write, KF-C14-partial-write) is never generated')
     ALPHABETS = (b'ab', b'abc', bytes(range(32, 127)), bytes(range(1, 256)), b'a\x80\xff\x7f', b'ab"\\\n?\'%')
     def cases(self, rng, tier, boost=1):
         quick = tier == 'quick'
@@ -173,6 +291,17 @@ class C16(Spec):
             if l == 'del 0' and len(cur) >= 3000: chunk.append(cur); cur = []
         if cur: chunk.append(cur)
         for i, c in enumerate(chunk): cs.append(Case(f'exh{i}', c))
+        # (e) every format of up to 3 (quick) / 4 (thorough) pieces out of {literal, %%, %s, %d, %li, %c, %$} at pos 0, inside, at len
+        pieces = [(b'ab', None), (b'%%', None), (b'%s', b'xy'), (b'%d', -7), (b'%li', 2**40), (b'%c', 90), (b'%$', (1, b'q'))]
+        lines = ['new 0 414243']
+        for npc in range(1, (3 if quick else 4) + 1):
+            for combo in itertools.product(pieces, repeat=npc):
+                fmt = b''.join(f for f, _ in combo); args = [tk for _, a in combo if a is not None for tk in arg_tokens(a)]
+                if len([1 for _, a in combo if a is not None]) > 8: continue
+                for pos in (0, 1, 3):
+                    lines += ['assign 0 414243', ' '.join([f'pf 0 {pos} {hx(fmt)}'] + args)]
+                lines += ['mem 0 25', 'hash 0']
+        for i in range(0, len(lines), 3000): cs.append(Case(f'fmtexh{i // 3000}', (['new 0 414243'] if i else []) + lines[i:i + 3000]))
         # (b) random histories, short texts
         nh, nops = ((72, 200) if quick else (3000, 300))
         for i in range(nh * boost):
@@ -209,7 +338,7 @@ class C16(Spec):
         for l in core.lines_with('S ', m_out):
             for f in l.split(' ')[1:]:
                 k, v = f.split('=')
-                if k in ('remFound', 'grow', 'shrink', 'fmtIn', 'fmtOut', 'slack', 'disagree'): acc['model_' + k] = acc.get('model_' + k, 0) + int(v)
+                if k in ('remFound', 'grow', 'shrink', 'fmtIn', 'fmtOut', 'pct', 'show', 'calls', 'slack', 'disagree'): acc['model_' + k] = acc.get('model_' + k, 0) + int(v)
         for l in core.lines_with('I alias', c_out):
             acc.setdefault('alias_probes', [])
             if len(acc['alias_probes']) < 18: acc['alias_probes'].append(l[2:160])
